@@ -347,7 +347,7 @@ func init() {
 	}
 
 	props["C12"] = func(c *Ctx) {
-		c.Res.Rule = "case = binary operation (12 arithmetic/comparison operators with and without bool, and/or/unless) between two vectors with overlapping / disjoint / empty label sets (different selectors and groupings of count_over_time, vector(c)) an eighth of the cases: sum by (l) of all lines against sum by (l) of the lines containing a needle, either side the larger, under and/or/unless/-,/,>; or between a vector and a scalar on either side (0, -2, 0.5, 3, 7) x instant or multi-step range grid; values in the exactly representable range; non-trivial = non-empty result; distinct by request line"
+		c.Res.Rule = "case = binary operation (12 arithmetic/comparison operators with and without bool, and/or/unless) between two vectors with overlapping / disjoint / empty label sets (different selectors and groupings of count_over_time, vector(c)) an eighth of the cases: sum by (l) of all lines against sum by (l) of the lines containing a needle, either side the larger, under and/or/unless/-,/,>; a tenth: a comparison on top of a division or modulo by zero (a NaN operand); or between a vector and a scalar on either side (0, -2, 0.5, 3, 7) x instant or multi-step range grid; values in the exactly representable range; non-trivial = non-empty result; distinct by request line"
 		spec := metricSpec("Metric.eval (binary operations) == Engine.Eval", "c12", func(r *rand.Rand) MetricCase {
 			t := MetricCase{Recs: genMRecs(r, 2+r.Intn(12)), Repeat: 3}
 			operand := func() *MExpr {
@@ -395,6 +395,16 @@ func init() {
 				}
 				for i := range t.Recs {
 					t.Recs[i].Body = pick(r, []string{"err x", "info", "warn x", "plain", "err"})
+				}
+			}
+			if r.Intn(10) == 0 {
+				// a comparison (or arithmetic) on top of a division or modulo by zero: the operand is NaN, and NaN
+				// compares false with everything, `!=` excepted
+				nan := &MExpr{Kind: "bin", Op: pick(r, []string{"div", "mod"}), A: genRangeExpr(r, true), B: &MExpr{Kind: "lit", Val: "0"}, Paren: true}
+				other := &MExpr{Kind: "lit", Val: pick(r, []string{"5", "0", "1", "-2"})}
+				e = &MExpr{Kind: "bin", Op: pick(r, []string{"ge", "le", "gt", "lt", "eq", "ne", "add"}), A: nan, B: other}
+				if r.Intn(2) == 0 {
+					e.A, e.B = other, nan
 				}
 			}
 			if binPrec[e.Op] == 3 && r.Intn(3) == 0 {
